@@ -1,11 +1,13 @@
 #!/bin/bash
+# env: SAVE_REGRESS=1 keep the shrunk case as /verif/regress/<id>/seed-<name>.json; NO_REGRESS=1 run without the stored
+# regression tapes (generated search only)
 # usage: seedtest.sh <seed-name> <property-id>...   apply /verif/seeded/<name>/patch.diff to /repo, run the quick checks, undo.
 N=$1; shift
 cd /repo || exit 2
 if [ -n "$(git status --porcelain --untracked-files=no)" ]; then echo "/repo not clean"; exit 2; fi
 git apply /verif/seeded/$N/patch.diff || { echo "$N: patch does not apply"; exit 2; }
 for id in "$@"; do
-  rm -rf /tmp/seedtest_out; mkdir -p /tmp/seedtest_out; cp -r /verif/known_findings.json /tmp/seedtest_out/; [ -d /verif/regress ] && cp -r /verif/regress /tmp/seedtest_out/; out=$(cd /verif && RXV_OUT_DIR=/tmp/seedtest_out ./check $id quick 2>&1); rc=$?
+  rm -rf /tmp/seedtest_out; mkdir -p /tmp/seedtest_out; cp -r /verif/known_findings.json /tmp/seedtest_out/; [ -d /verif/regress ] && [ -z "$NO_REGRESS" ] && cp -r /verif/regress /tmp/seedtest_out/; out=$(cd /verif && RXV_OUT_DIR=/tmp/seedtest_out ./check $id quick 2>&1); rc=$?
   sig=$(echo "$out" | grep -E "signature=" | head -1 | sed 's/detail=.*//')
   echo "$N vs $id: exit=$rc $sig"
   # keep the shrunk failing case as a regression tape (passes on the unchanged tree, fails with this change)
